@@ -421,6 +421,21 @@ impl<'a> Rewriter<'a> {
             return Some(parse_quote!(()));
         }
         match name.as_str() {
+            "write" | "writeln" => {
+                // R37: `write!(f, lit, args..)` -> `f.vx_write_str(&<R3 helper for format!(lit, args..)>)`:
+                // the formatter stand-in records the text written (writeln! appends a newline)
+                let toks: Vec<proc_macro2::TokenTree> = m.tokens.clone().into_iter().collect();
+                let pos = toks.iter().position(|t| matches!(t, proc_macro2::TokenTree::Punct(p) if p.as_char() == ','))?;
+                let fexpr: Expr = syn::parse2(toks[..pos].iter().cloned().collect()).ok()?;
+                let rest: TokenStream = toks[pos + 1..].iter().cloned().collect();
+                let fm: syn::Macro = syn::parse2(quote!(format!(#rest))).ok()?;
+                let helper = self.rewrite_macro_expr(&fm, line)?;
+                self.logr("R37", line, format!("{}!(f, ..) -> f.vx_write_str(&<formatted text>)", name));
+                if name == "writeln" {
+                    return Some(parse_quote!(#fexpr.vx_writeln_str(&#helper)));
+                }
+                return Some(parse_quote!(#fexpr.vx_write_str(&#helper)));
+            }
             "vec" => {
                 // R31: `vec![a, b, c]` -> a block pushing a, b, c onto a new Vec (same value, same evaluation order)
                 let args: syn::punctuated::Punctuated<Expr, syn::Token![,]> =
